@@ -35,8 +35,8 @@ theorem stage1_reqpq {c : Cfg} {s : Secrets} (h : ExchangeHyps c s) :
     ∃ req1 r1, marshalSend c.R (vReqPQ (fromBE c.d.nonce)) = .ok req1 ∧
       srvResPQ c.R c.P c.key s req1 = some (fromBE c.d.nonce, r1) ∧
       marshal c.R (vResPQ (fromBE c.d.nonce) s.serverNonce (bigBytes (s.p * s.q))
-        (s.extraFps ++ [specFingerprint c.P.H c.key])) = .ok r1 ∧
-      (s.extraFps ++ [specFingerprint c.P.H c.key]).length ≤ r1.length := stageA h
+        (s.offered (specFingerprint c.P.H c.key))) = .ok r1 ∧
+      (s.offered (specFingerprint c.P.H c.key)).length ≤ r1.length := stageA h
 
 /-- **Stage 2 (`p_q_inner_data`).** The client accepts `resPQ` (nonce, fingerprint), splits pq,
 RSA-encrypts `SHA1(p_q_inner_data) ‖ p_q_inner_data ‖ zeros` (255 bytes → 256 bytes, right-aligned)
@@ -45,8 +45,8 @@ RSA result has leading zero bytes —, the SHA-1 matches, `new_nonce` is taken o
 answers `server_DH_params_ok` with the conformantly wrapped `server_DH_inner_data`. -/
 theorem stage2_pq_inner {c : Cfg} {s : Secrets} (h : ExchangeHyps c s) {r1 : Bytes}
     (hr1 : marshal c.R (vResPQ (fromBE c.d.nonce) s.serverNonce (bigBytes (s.p * s.q))
-        (s.extraFps ++ [specFingerprint c.P.H c.key])) = .ok r1)
-    (hlen : (s.extraFps ++ [specFingerprint c.P.H c.key]).length ≤ r1.length) :
+        (s.offered (specFingerprint c.P.H c.key))) = .ok r1)
+    (hlen : (s.offered (specFingerprint c.P.H c.key)).length ≤ r1.length) :
     ∃ req2 answer r2, stage1 c r1 = .ok ⟨s.serverNonce, req2⟩ ∧
       marshal c.R (srvAnswerVal c s) = .ok answer ∧
       marshal c.R (vDHOk (fromBE c.d.nonce) s.serverNonce
@@ -105,7 +105,7 @@ theorem stage5_dhgen {c : Cfg} {s : Secrets} (h : ExchangeHyps c s) {hash r3 : B
 
 /-- **Agreement.** For ALL client draws (nonce, new_nonce, DH exponent `b`, padding bytes), all server
 secrets (server_nonce, `pq = p·q` with `p, q < 2^32`, `g`, `a`, any `0 < dh_prime < 2^2048`, padding,
-minimal or fixed-width integers, further fingerprints) and all RSA-2048 key pairs for which
+minimal or fixed-width integers, further fingerprints before and after its own) and all RSA-2048 key pairs for which
 `(m^e)^d ≡ m (mod n)` — see `ExchangeHyps`; NO condition on leading zero bytes of any value — the
 exchange of the client machine with the conformant server COMPLETES WITHOUT ERROR, and:
 the client's auth key equals the server's and is `g^(ab) mod dh_prime` as exactly 256 big-endian
@@ -199,7 +199,7 @@ def toyCfg : Cfg :=
 
 def toySecrets : Secrets :=
   { d := 1, serverNonce := 0, p := 3, q := 5, g := 2, a := 3, dhPrime := 23, time := 7,
-    pad := zeros 15, minimal := true, extraFps := [42] }
+    pad := zeros 15, minimal := true, extraFps := [42], laterFps := [7, 2 ^ 64 - 1] }
 
 theorem toy_hyps : ExchangeHyps toyCfg toySecrets := by
   have hreg : HsReg hsDescs := by decide
